@@ -53,6 +53,18 @@ func (Engine) Generate(r *core.Rng, property, tier string) *core.Plan {
 	case "C07":
 		g.on["badblock"] = true
 		g.badKinds = []string{"merkle", "dup-tx", "dup-tx", "second-coinbase", "no-coinbase"}
+	case "C11":
+		g.on["badblock"] = true
+		g.badKinds = []string{"reward+1", "reward-1", "cb-shift", "cb-shift-dpos", "cb-addr", "cb-addr-dpos", "cb-count4", "cb-count2"}
+	}
+	if property == "C11" || r.Bool(0.15) {
+		// the simulated environment reports DPoS v2 as active from an early
+		// height; the issuance schedule is compressed into the run
+		p.SetKnob("v2active", int64(r.Range(1, 10)))
+		ni := int64(r.Range(0, 12))
+		p.SetKnob("newissue", ni)
+		p.SetKnob("halvingh", ni+int64(r.Range(1, 12)))
+		p.SetKnob("halvingint", int64(r.Range(1, 9)))
 	}
 	if g.faultFree {
 		for k := range g.on {
